@@ -1,5 +1,6 @@
 """C12 - the session answers any bytes safely, once, and keeps going."""
 import multiprocessing
+import os
 import random
 import struct
 
@@ -405,6 +406,110 @@ def large_frames(run, quick):
     ST.judge(run, traces, name="c12large", owners=("C12",))
 
 
+def system_stream(run, quick):
+    """The same discipline on the real thing: raw TLS connections to a real KmipServer on loopback; frames (valid, refused,
+    undecodable, junk of the right length) are written in one piece, byte by byte, or in odd pieces with TCP_NODELAY, so that
+    the server's recv() really returns partial data; one answer per frame, the valid request after bad ones is served, and
+    the connection that ends inside a frame is simply closed."""
+    import shutil
+    import socket
+    import ssl
+    import time
+    from .. import sysdrv
+    sysdrv.install_wrap_socket()
+    root = os.path.join(common.scratch(), "sys12")
+    sysm = sysdrv.System(root, tls_client_auth=True)
+    cert, key = sysm.issue("alice", ["alice"], "client")
+    intern = E.new_interner()
+    fr = mkframes(intern)
+    fr["junk"] = reframe(fr["valid"][:8] + bytes((i * 37 + 11) % 256 for i in range(64)))
+    r = random.Random(common.SEED + 12)
+    n = 0
+
+    def read_answers(s, want, timeout=20.0):
+        s.settimeout(timeout)
+        out = []
+        try:
+            while len(out) < want:
+                hdr = b""
+                while len(hdr) < 8:
+                    c = s.recv(8 - len(hdr))
+                    if not c:
+                        return out
+                    hdr += c
+                ln = struct.unpack("!I", hdr[4:8])[0]
+                body = b""
+                while len(body) < ln:
+                    c = s.recv(ln - len(body))
+                    if not c:
+                        return out
+                    body += c
+                out.append(hdr + body)
+        except (socket.timeout, ssl.SSLError, OSError):
+            pass
+        return out
+    try:
+        sysm.start()
+        ctx = ssl.SSLContext(ssl.PROTOCOL_TLS_CLIENT)
+        ctx.check_hostname = False
+        ctx.load_verify_locations(os.path.join(sysm.pki, "ca.pem"))
+        ctx.load_cert_chain(cert, key)
+        seqs = [["valid"], ["undecodable", "valid"], ["junk", "refused", "valid"], ["undecodable", "junk", "undecodable", "valid"],
+                ["valid", "toolarge", "valid"], ["refused", "undecodable", "valid", "valid"]]
+        for kinds in seqs:
+            for mode in ("whole", "bytes", "odd"):
+                data = b"".join(fr[k] for k in kinds)
+                raw = socket.create_connection(("127.0.0.1", sysm.port), timeout=10)
+                raw.setsockopt(socket.IPPROTO_TCP, socket.TCP_NODELAY, 1)
+                s = ctx.wrap_socket(raw)
+                try:
+                    if mode == "whole":
+                        s.sendall(data)
+                    else:
+                        pos = 0
+                        while pos < len(data):
+                            k = 1 if mode == "bytes" else r.choice([1, 3, 7, 8, 9, 64, 300])
+                            s.sendall(data[pos:pos + k])
+                            pos += k
+                            if mode == "odd" and r.random() < 0.2:
+                                time.sleep(0.002)
+                    answers = read_answers(s, len(kinds))
+                finally:
+                    try:
+                        s.close()
+                    except OSError:
+                        pass
+                got = [classify(a, intern)[0] for a in answers]
+                want = [RespOf_py(k) for k in kinds]
+                n += 1
+                run.case(("system-stream", tuple(kinds), mode, tuple(got)))
+                if got != want:
+                    run.violation("C12_one_response_per_frame" if len(got) != len(want) else "C12_response_order_or_kind",
+                                  {"level": "system", "kinds": kinds, "mode": mode}, {"frames": kinds, "delivery": mode, "answers": got, "prescribed": want})
+        # a connection that ends inside a frame: no answer, and the server keeps serving others
+        raw = socket.create_connection(("127.0.0.1", sysm.port), timeout=10)
+        s = ctx.wrap_socket(raw)
+        s.sendall(fr["valid"][:40])
+        s.close()
+        raw = socket.create_connection(("127.0.0.1", sysm.port), timeout=10)
+        s = ctx.wrap_socket(raw)
+        s.sendall(fr["valid"])
+        last = [classify(a, intern)[0] for a in read_answers(s, 1)]
+        s.close()
+        n += 1
+        if last != ["Success"]:
+            run.violation("C12_next_request_not_served", {"level": "system"}, {"after": "a connection that ended inside a frame", "answers": last})
+        run.traces += n
+        run.extra["system_stream_connections"] = n
+    finally:
+        sysm.stop()
+        shutil.rmtree(root, ignore_errors=True)
+
+
+def RespOf_py(kind):
+    return {"valid": "Success", "refused": "EngineError", "toolarge": "ResponseTooLarge"}.get(kind, "InvalidMessage")
+
+
 def check(run, tier):
     quick = tier == "quick"
     nfr = 2 if quick else 3
@@ -499,5 +604,6 @@ def check(run, tier):
     run.sample({"plan": plans[len(plans) // 2]["plan"], "prescribed_responses": plans[len(plans) // 2]["sent"]})
     max_size(run)
     large_frames(run, quick)
+    system_stream(run, quick)
     run.assumptions.append("mutation corpus: RSA key generation above 8192 bits is refused by the environment (a damaged "
                            "CreateKeyPair may ask for millions of bits)")
